@@ -743,6 +743,57 @@ def _all_failures(case):
                 fails.append(Fail(f'reserialize-parsed/raises/{exc_sig(c4)}', f'VmStack.serialize(VmStack.deserialize(cell)) raised {c4!r}'))
             elif c4.hash != c1.hash:
                 fails.append(Fail('reserialize-parsed/cell-differs', 'serialising the parsed stack gives another cell'))
+    # (H) "the caller's values are left unmodified" - also by a call that is refused half-way: an integer outside the 257-bit
+    # range sits in the middle of the stack and in the middle of the innermost tuple; whatever serialize raises, the caller's
+    # list and tuples are what they were, and once the entry is repaired the stack serialises to exactly the repaired values
+    if not mutated and not fails:
+        from pytoniq_core.tlb.vm_stack import VmTuple as _VT
+        ok3, s3 = call(lambda: [mk_value(v) for v in specs])
+        if ok3:
+            specs3 = json.loads(json.dumps(specs))
+            BAD = 1 << 256
+            p0 = len(s3) // 2
+            s3.insert(p0, BAD)
+            specs3.insert(p0, {'t': 'int', 'v': '77'})
+            holders = [(s3, p0)]
+            # innermost tuple along the first-tuple path
+            node_l, spec_l = s3, specs3
+            tpath = None
+            while True:
+                nxt = next((i for i, x in enumerate(node_l) if isinstance(x, _VT) and isinstance(x.list, list)), None)
+                if nxt is None:
+                    break
+                tpath = (node_l[nxt], spec_l[nxt])
+                node_l, spec_l = node_l[nxt].list, spec_l[nxt]['items']
+            if tpath is not None:
+                tup, tspec = tpath
+                pos = len(tup.list) // 2
+                tup.list.insert(pos, BAD)
+                tspec['items'].insert(pos, {'t': 'int', 'v': '78'})
+                holders.append((tup.list, pos))
+            snap3 = [norm(x) for x in s3]
+            okr, _r = call(VmStack.serialize, s3)
+            if not okr:
+                for m in diff([norm(x) for x in s3], snap3):
+                    fails.append(Fail('consumed/after-refused-serialize/' + m.cls, f'VmStack.serialize raised on an out-of-range integer and '
+                                      f'left the caller\'s values changed: {m.path}: {m.detail}'))
+                    break
+                else:
+                    for (lst, pos), good in zip(holders, (77, 78)):
+                        lst[pos] = good
+                    okf, c5 = call(VmStack.serialize, s3)
+                    if not okf:
+                        fails.append(Fail(f'after-refused-serialize/repaired-stack-raises/{exc_sig(c5)}', repr(c5)))
+                    else:
+                        try:
+                            d5 = rv.decode_stack(rv.to_tree(c5))
+                        except (rv.DecodeError, RecursionError) as e:
+                            d5 = None
+                            fails.append(Fail('after-refused-serialize/undecodable', str(e)))
+                        if d5 is not None:
+                            for m in diff(d5, [expect(v) for v in specs3]):
+                                fails.append(Fail('after-refused-serialize/repaired-stack-differs', f'{m.path}: {m.detail}'))
+                                break
     # (D) no stale state: after the caller changes a (nested) value, serialising reflects the NEW value
     if not mutated and not fails:
         mut = _find_mutation(specs)
@@ -1202,6 +1253,73 @@ def nontrivial(case):
     return 'NT' in _labels(case)
 
 
+def check_window(case):
+    """parse direction on encodings the library's own writer never produces: a VmCellSlice whose window (st_bits..end_bits,
+    st_ref..end_ref) is a proper part of its cell - `_ cell:^Cell st_bits:(## 10) end_bits:(## 10) st_ref:(#<= 4) end_ref:(#<= 4)`.
+    The stack cell is assembled bit by bit here (Builder.store_bits/store_uint/store_ref are the trusted base); the parser must
+    return the slice holding exactly the window, the values around it, and serialising its result again must denote the same
+    values under the independent decoder."""
+    from pytoniq_core.tlb.vm_stack import VmStack
+    from pytoniq_core.boc.builder import Builder
+    from pytoniq_core.boc.slice import Slice
+    c = case['c']
+    bits, refs = _tree(c)
+    nb, nr = len(bits), len(refs)
+    sb = case['w'][0] % (nb + 1)
+    eb = sb + case['w'][1] % (nb - sb + 1)
+    sr = case['w'][2] % (nr + 1)
+    er = sr + case['w'][3] % (nr - sr + 1)
+    below = int(case['below'])
+    # [below, window-slice] : vm_stk_cons rest:^(cons rest:^nil tos:int) tos:slice
+    tiny = Builder().store_ref(Builder().end_cell()).store_uint(1, 8).store_int(below, 64).end_cell()
+    stack = (Builder().store_uint(2, 24).store_ref(tiny).store_uint(4, 8).store_ref(mk_cell(c))
+             .store_uint(sb, 10).store_uint(eb, 10).store_uint(sr, 3).store_uint(er, 3).end_cell())
+    want = [('int', below), ('slice', bits[sb:eb], refs[sr:er])]
+    for attempt in ('first', 'second'):
+        ok, back = call(VmStack.deserialize, stack.begin_parse())
+        if not ok:
+            return Fail(f'windowed-slice/parse-raises/{exc_sig(back)}', f'window bits {sb}..{eb} refs {sr}..{er} of {nb}/{nr}: {back!r}')
+        for m in diff([norm(x) for x in back], want):
+            return Fail(f'windowed-slice/{m.cls}' + ('' if attempt == 'first' else '/second-parse'),
+                        f'window bits {sb}..{eb} refs {sr}..{er} of a cell with {nb} bits / {nr} refs: {m.path}: {m.detail}')
+        for x in back:                                   # the caller reads what it got; the stack cell is parsed again
+            if isinstance(x, Slice):
+                call(lambda: x.load_bits(min(5, len(x.bits))))
+                call(x.load_ref)
+    ok, back = call(VmStack.deserialize, stack.begin_parse())
+    ok, again = call(VmStack.serialize, back)
+    if not ok:
+        return Fail(f'windowed-slice/reserialize-raises/{exc_sig(again)}', repr(again))
+    try:
+        d = rv.decode_stack(rv.to_tree(again))
+    except (rv.DecodeError, RecursionError) as e:
+        return Fail('windowed-slice/reserialized-undecodable', str(e))
+    for m in diff(d, want):
+        return Fail(f'windowed-slice/reserialized/{m.cls}', f'{m.path}: {m.detail}')
+    return None
+
+
+def strat_window(tier):
+    leaf = st.builds(lambda n, v: {'bits': format(v % (1 << n), '0%db' % n) if n else '', 'refs': []}, st.integers(0, 40), st.integers(0, 2 ** 40))
+    cell = st.builds(lambda n, v, r: {'bits': format(v % (1 << n), '0%db' % n) if n else '', 'refs': r},
+                     st.one_of(st.integers(0, 64), st.sampled_from([0, 1, 8, 1022, 1023])), st.integers(0, 2 ** 1023),
+                     st.lists(leaf, max_size=4))
+    return st.fixed_dictionaries({'c': cell, 'below': st.sampled_from([0, 1, -1, 2 ** 63 - 1, -2 ** 63, 12345]).map(str),
+                                  'w': st.tuples(st.sampled_from([0, 0, 1, 3, 9]), st.integers(0, 1023), st.integers(0, 4),
+                                                 st.sampled_from([0, 1, 2, 3, 4, 4])).map(list)})
+
+
+def _window_classes(case):
+    bits, refs = _tree(case['c'])
+    nb, nr = len(bits), len(refs)
+    sb = case['w'][0] % (nb + 1)
+    eb = sb + case['w'][1] % (nb - sb + 1)
+    sr = case['w'][2] % (nr + 1)
+    er = sr + case['w'][3] % (nr - sr + 1)
+    yield 'window:bits=' + ('full' if (sb, eb) == (0, nb) else 'empty' if sb == eb else 'prefix' if sb == 0 else 'suffix' if eb == nb else 'inner')
+    yield 'window:refs=' + ('full' if (sr, er) == (0, nr) else 'empty' if sr == er else 'prefix' if sr == 0 else 'suffix' if er == nr else 'inner')
+
+
 SUBCHECKS = [
     Sub('structured', check, enum=enum_structured, classify=classify, nontrivial=nontrivial, shards=(16, 16),
         note='boundary ints, tuple length x nesting grid, slice consumption grid, every continuation kind x '
@@ -1210,4 +1328,7 @@ SUBCHECKS = [
         n=(3000, 100000), shards=(16, 48)),
     Sub('random-continuations', check, strategy=strat_conts, classify=classify, nontrivial=nontrivial,
         n=(1200, 40000), shards=(16, 32)),
+    Sub('windowed-slices-foreign-encoding', check_window, strategy=strat_window, classify=_window_classes,
+        nontrivial=lambda c: True, n=(600, 20000), shards=(4, 16),
+        note='VmCellSlice values whose window is a proper part of the cell (hand-assembled stack cells): parse, re-parse, re-serialise'),
 ]
